@@ -231,23 +231,40 @@ def r4(ctx):
     # window motion in the newer-branch of insert: shift right by n, set index n-1, under n <= nbits, else clear
     shifts_l = [n for n in ast.walk(ins.node) if (isinstance(n, ast.BinOp) and isinstance(n.op, ast.LShift)) or (isinstance(n, ast.AugAssign) and isinstance(n.op, ast.LShift))]
     ctx.check(not shifts_l, "C08.R4", ins, "the window is never shifted left", witness=[norm(s) for s in shifts_l])
+    # the distance may be held in a temporary (n = -diff) or written out: events are compared with single-definition
+    # temporaries of the function substituted
+    temps = {}
+    for a_ in walk_own(ins.node):
+        if isinstance(a_, ast.Assign) and len(a_.targets) == 1 and isinstance(a_.targets[0], ast.Name):
+            temps.setdefault(a_.targets[0].id, []).append(a_.value)
+    temps = {k: v[0] for k, v in temps.items() if len(v) == 1 and k != "diff" and not any(isinstance(x, ast.Call) for x in ast.walk(v[0]))}
+
+    class _S(ast.NodeTransformer):
+        def visit_Name(self, node):
+            if node.id in temps and isinstance(node.ctx, ast.Load):
+                return ast.parse("(%s)" % ast.unparse(temps[node.id]), mode="eval").body
+            return node
+
+    def canon(text):
+        try:
+            return ast.unparse(_S().visit(ast.parse(text)))
+        except SyntaxError:
+            return text
     for nb in sorted(set(c04.window_widths(ctx))):
         for (name, cell, want_shift) in (("newer inside window", (-nb, -1), True), ("newer beyond window", (-T, -nb - 1), False)):
             outs, used, _ = c04.explore_insert(ctx, nb, cell)
             outs = [o for o in outs if not any(lab and "current_seqnum == 0" in lab and pol for (lab, pol) in o.path)]
             ok = bool(outs)
             for o in outs:
-                ev = o.events
+                ev = [canon(e) for e in o.events]
                 if want_shift:
-                    ok = ok and any(e == "self.bits >>= n" for e in ev) and any(e.startswith("self.bits |= self.onehot >> n - 1") or e.startswith("self.bits |= self.onehot >> (n - 1)") for e in ev) \
-                        and ev.index("self.bits >>= n") < max(i for i, e in enumerate(ev) if e.startswith("self.bits |="))
+                    ok = ok and any(e == "self.bits >>= -diff" for e in ev) and any(e == "self.bits |= self.onehot >> -diff - 1" for e in ev) \
+                        and ev.index("self.bits >>= -diff") < max(i for i, e in enumerate(ev) if e.startswith("self.bits |="))
                 else:
                     ok = ok and any(e == "self.bits = 0" for e in ev) and not any(e.startswith("self.bits |=") for e in ev)
             ctx.check(ok, "C08.R4", ins, "nbits=%d %s: %s" % (nb, name, "shift by n then set index n-1" if want_shift else "window cleared"),
                       "advancing by n moves the old current number to offset n", witness=[repr(o) for o in outs][:2])
     # n = -diff
-    nd = [n for n in walk_own(ins.node) if isinstance(n, ast.Assign) and norm(n.targets[0]) == "n"]
-    ctx.check(len(nd) == 1 and norm(nd[0].value) == "-diff", "C08.R4", ins, "n := -diff", witness=[norm(x.value) for x in nd])
     dd = [n for n in walk_own(ins.node) if isinstance(n, ast.Assign) and norm(n.targets[0]) == "diff"]
     ctx.check(len(dd) == 1 and norm(dd[0].value) == "self.current_seqnum.diff(%s)" % ins.params[1], "C08.R4", ins, "diff := current_seqnum.diff(seqnum)", witness=[norm(x.value) for x in dd])
     # message window width vs. decode: only the packet window is sent in headers; message window is local
@@ -292,4 +309,13 @@ def r_idioms(ctx):
     repo_idioms(ctx, "C08.R6", ('connection',))
 
 
-RULES = [("C08.R1", r1), ("C08.R2", r2), ("C08.R3", r3), ("C08.R4", r4), ("C08.R5", r5), ("C08.R6", r_idioms)]
+def r7(ctx):
+    """'the ack fields name exactly the datagrams received': the receive window may record a sequence number only for a
+    datagram that authenticated - shared obligation C01.R4 (no state effect before Packet.from_bytes completed normally)"""
+    from .c02 import _Sub
+    c01.r4(_Sub(ctx, "C08.R7"))
+
+
+EXPLANATION = EXPLANATION + " (R7) the receive window is updated only for authenticated datagrams (shared C01.R4): a damaged or forged datagram must not be acknowledged nor make its intact copy look like a duplicate."
+
+RULES = [("C08.R1", r1), ("C08.R2", r2), ("C08.R3", r3), ("C08.R4", r4), ("C08.R5", r5), ("C08.R6", r_idioms), ("C08.R7", r7)]
